@@ -108,7 +108,7 @@ def run_property(pid, tier, plan, check_mod, level="model_checking", rule="", as
             else:
                 o = dict(explore_opts or {})
                 o["shadow_min_len"] = depth   # (C17) a deepest history's shadow replay covers all its prefixes
-                r = ex.explore(world, alphabet, depth, check_mod, budget_s=left, opts=o, seed_depth=seed_depth)
+                r = ex.explore(world, alphabet, depth, check_mod, check_name=cname, budget_s=left, opts=o, seed_depth=seed_depth)
             tot["states"] += r["states"]
             tot["transitions"] += r["transitions"]
             tot["histories"] += r["histories"]
